@@ -121,6 +121,15 @@ def gen_cases(tier, seed, ctx):
             for kind, mb in body_mutants(rnd, body, mr, len(B), nm):
                 for cuts in frag_kinds(rnd, len(mb), small)[: (2 if tier == 'quick' else 5)]:
                     add('body/' + kind, t, flags, limit, hdrs, mb, cuts, rnd.choice(['stop', 'cont', 'clear']))
+            # (a'') bytes behind the closing delimiter (an epilogue), the delimiter itself split across two callbacks
+            for ep in (b'\r\n\r\n\r\n', b'\r\n\r\nepilogue\r\n\r\nmore', b'\r\n'):
+                mb = body + ep
+                close_at = len(body) - (len(good_b) + 8)          # start of CRLF "--" boundary "--" CRLF
+                for c0 in (close_at + 6, close_at + 1, close_at + len(good_b) + 5, len(body) + 1, max(1, close_at - 3)):
+                    for mode in ('stop', 'clear'):
+                        add('body/epilogue', t, flags, limit, hdrs, mb, '%d' % c0, mode)
+                add('body/epilogue', t, flags, limit, hdrs, mb, '-', 'stop')
+                add('body/epilogue', t, flags, limit, hdrs, mb, 'b7', 'cont')
             # (a') a well-formed body with EMPTY fragments at the seams: at the start, right after the last payload byte of each
             # part, right after each part header, then the rest in one or several pieces
             seams = [0]
